@@ -252,6 +252,12 @@ def row_class(case, r):
         v = fl[0]; val = r.const / r.coeffs[v]
         if not (case.decls[v][1] <= val <= case.decls[v][2]):
             return "eq_val_outside"          # Var == Val overwrites the interval at post time, whatever the declared bounds
+    if r.route == "props" and r.text.split()[1] in ("lt", "gt") and nv == 2:
+        t = r.text.split()
+        if t[2].startswith("x") and t[3].startswith("x"):
+            small, large = (int(t[2][1:]), int(t[3][1:])) if t[1] == "lt" else (int(t[3][1:]), int(t[2][1:]))
+            if not case.is_float(small) and case.is_float(large):
+                return "mixed_strict_int_succ"   # x < y posts x.next() <= y; Next on an int-valued view is +1 even when y is a float variable
     if r.route == "props" and r.text.split()[1] == "eq" and nv == 1 and fl:
         c = float(r.const / r.coeffs[fl[0]]); st = float(case.step)
         if not (math.ceil(c / st) * st == c and math.floor(c / st) * st == c):
